@@ -205,6 +205,10 @@ func handleLTrim(params internal.HandlerFuncParams) ([]byte, error) {
 	if end < 0 {
 		end = len(list) + end
 	}
+	// A start index that is still before the head of the list refers to the first element.
+	if start < 0 {
+		start = 0
+	}
 
 	// If start index is greater than end index or greater than the index of the last element, delete the key.
 	if start > end || start > len(list)-1 {
